@@ -1390,6 +1390,18 @@ func main() {
 	close(sjobs)
 	wg.Wait()
 
+	// served size sweep: every body length of a contiguous range (all residues modulo chunk and frame size)
+	for i, n := range []int{1, 6, 23}[:r.Pick(2, 3)] {
+		n, span := n, r.Pick(2100, 4200)
+		if i > 0 && r.Tier == "quick" {
+			span = 2100
+		}
+		r.Eval()
+		r.Guard("size sweep", func() { c.sizeSweep(r, n, span) })
+	}
+	r.Floor("size_sweep_length_mod_2048", r.DistinctN("size_sweep_length_mod_2048"), 2048)
+	r.Floor("size_sweep_bodies_of_a_multiple_of_the_chunk_size", int(r.Counter("size_sweep_bodies_of_a_multiple_of_the_chunk_size")), 2)
+
 	c.flushTyped()
 
 	// hc's own log would otherwise fill the monitor log
